@@ -9,6 +9,8 @@ var core = []string{"C01", "C02", "C03", "C06", "C07"}
 
 func scenarioConfigs() []*config {
 	pre0 := []uint32{0}
+	pre12 := []uint32{1, 2}
+	b1 := map[string]int{"quick": 1, "thorough": -1}
 	return []*config{
 		{
 			Name: "S1-dedup-race", Props: core,
@@ -27,7 +29,7 @@ func scenarioConfigs() []*config {
 		{
 			Name: "S1c-do-not-cache", Props: []string{"C01", "C03"},
 			Doc:         "two clients, same do_not_cache action: never merged; a third request after completion",
-			Predeclared: pre0, MaxTicks: 2,
+			Predeclared: pre0, MaxTicks: 2, Bounds: b1, Shards: 4,
 			Clients: []clientSpec{{Name: "c1", Calls: []string{"exec N i1", "exec A i1", "exec A i1"}}, {Name: "c2", Calls: []string{"exec N i2"}}},
 			Workers: []workerSpec{{Name: "w1", MaxCalls: 4, Busy: []string{"ok"}}},
 		},
@@ -66,6 +68,89 @@ func scenarioConfigs() []*config {
 			Predeclared: pre0, MaxTicks: 4,
 			Clients: []clientSpec{{Name: "c1", Calls: []string{"exec A i1"}, Cancels: 1}, {Name: "c2", Calls: []string{"exec A i2"}, Cancels: 1}},
 			Workers: []workerSpec{{Name: "w1", MaxCalls: 2, Busy: []string{"ok", "sleep3"}}},
+		},
+		{
+			Name: "S1d-three-clients", Props: []string{"C01", "C02", "C03"},
+			Doc:         "three clients, two invocations (one of them twice), any of them may leave",
+			Predeclared: pre0, MaxTicks: 3, Bounds: b1, Shards: 8,
+			Clients: []clientSpec{
+				{Name: "c1", Calls: []string{"exec A i1"}, Cancels: 1},
+				{Name: "c2", Calls: []string{"exec A i2"}, Cancels: 1},
+				{Name: "c3", Calls: []string{"exec A i1"}},
+			},
+			Workers: []workerSpec{{Name: "w1", MaxCalls: 2, Busy: []string{"ok"}}},
+		},
+		{
+			Name: "S6-size-class-retry", Props: core,
+			Doc:         "predeclared size classes {1,2}; the learner may ask for a retry on the largest; a duplicate client races with failure, retry and completion",
+			Predeclared: pre12, MaxTicks: 2, RetryChoices: 2, Bounds: b1, Shards: 8,
+			Clients: []clientSpec{{Name: "c1", Calls: []string{"exec A i1"}}, {Name: "c2", Calls: []string{"exec A i2"}, Cancels: 1}},
+			Workers: []workerSpec{
+				{Name: "w1", SizeClass: 1, MaxCalls: 2, Busy: []string{"fail", "err", "ok"}},
+				{Name: "w2", SizeClass: 2, MaxCalls: 2, Busy: []string{"ok", "fail"}},
+			},
+		},
+		{
+			Name: "S7-drain-terminate", Props: []string{"C01", "C02", "C06"},
+			Doc:         "a parked worker is drained, undrained and terminated while a task arrives",
+			Predeclared: pre0, MaxTicks: 3, IdleSync: 3, Bounds: b1, Shards: 4,
+			Workers:   []workerSpec{{Name: "w1", MaxCalls: 3, Busy: []string{"ok", "exec"}}},
+			Clients:   []clientSpec{{Name: "c1", Stage: 1, Calls: []string{"exec A i1"}}},
+			Operators: []operatorSpec{{Name: "op", Stage: 1, Calls: []string{"drain+ w1", "drain- w1", "term w1", "list"}, Cancels: 1}},
+		},
+		{
+			Name: "S9-queue-removal", Props: core,
+			Doc:      "worker-created queue whose only worker never returns; queued task, late second client after the queue is gone",
+			MaxTicks: 10, Update: 2,
+			Workers: []workerSpec{{Name: "w1", MaxCalls: 1, Idle: []string{"pidle"}}},
+			Clients: []clientSpec{
+				{Name: "c1", Stage: 1, Calls: []string{"exec A i1"}, Cancels: 1},
+				{Name: "c2", Stage: 1, Calls: []string{"sleep 9", "exec A i2"}},
+			},
+			Operators: []operatorSpec{{Name: "op", Stage: 1, Calls: []string{"sleep 2", "list", "killq 0"}}},
+		},
+		{
+			Name: "S10-retry-limit", Props: core,
+			Doc:         "a worker keeps re-requesting the task it was given (crash loop); WorkerTaskRetryCount=1",
+			Predeclared: pre0, MaxTicks: 2,
+			Clients: []clientSpec{{Name: "c1", Calls: []string{"exec A i1"}}},
+			Workers: []workerSpec{{Name: "w1", MaxCalls: 4, Busy: []string{"idle", "wrong", "ok"}}},
+		},
+		{
+			Name: "S11-background-learning", Props: core,
+			Doc:         "the learner asks for a background run after success; new requests for the same action arrive while the background run is queued/executing/completing",
+			Predeclared: pre12, MaxBackground: 1, MaxTicks: 2, BackgroundChoices: 2, Bounds: b1, Shards: 8,
+			Clients: []clientSpec{{Name: "c1", Calls: []string{"exec A i1", "exec A i1"}}, {Name: "c2", Calls: []string{"exec A i2"}}},
+			Workers: []workerSpec{{Name: "w1", SizeClass: 1, MaxCalls: 4, Busy: []string{"ok"}}},
+		},
+		{
+			Name: "S11b-background-backlog", Props: []string{"C01", "C06", "C07"},
+			Doc:         "two actions both yield background runs; backlog limit 1; nobody serves the background queue at the end",
+			Predeclared: pre12, MaxBackground: 1, MaxTicks: 2, BackgroundAlways: true, SelectLargest: true,
+			Clients: []clientSpec{{Name: "c1", Calls: []string{"exec A i1"}}, {Name: "c2", Calls: []string{"exec B i2"}}},
+			Workers: []workerSpec{{Name: "w2", SizeClass: 2, MaxCalls: 3, Busy: []string{"ok"}}},
+		},
+		{
+			Name: "S11c-background-vs-duplicate", Props: core,
+			Doc:         "a background learning run (same action digest as its foreground task) completes while a newer task for that action is in flight; then another duplicate request arrives",
+			Predeclared: pre12, MaxBackground: 1, MaxTicks: 2, BackgroundAlways: true,
+			Clients: []clientSpec{{Name: "c1", Calls: []string{"exec A i1", "exec A i1"}}, {Name: "c2", Calls: []string{"sleep 1", "exec A i2"}}},
+			Workers: []workerSpec{{Name: "w1", SizeClass: 1, MaxCalls: 3, Busy: []string{"ok"}}},
+		},
+		{
+			Name: "S4b-reattach-vs-removal", Props: core,
+			Doc:         "WaitExecution re-attaches by name while the abandoned operation is being garbage collected (no-waiter timeout 1) and an operator polls; all thread switches are free, only early clock ticks are bounded",
+			Predeclared: pre0, MaxTicks: 2, NoWaiter: 1, PreemptFree: true, Bounds: b1,
+			Clients:   []clientSpec{{Name: "c1", Calls: []string{"exec A i1"}, Cancels: 1}, {Name: "c2", Stage: 1, Calls: []string{"wait c1.0"}}},
+			Operators: []operatorSpec{{Name: "op", Stage: 1, Calls: []string{"list", "list"}}},
+		},
+		{
+			Name: "S12-crash-points", Props: []string{"C01", "C02", "C06", "C07"},
+			Doc:      "worker-created queue; client, worker and operator may each stop for good at any point (cancellation, or simply never calling again) while the clock runs through all timeouts",
+			MaxTicks: 5, IdleSync: 2,
+			Workers:   []workerSpec{{Name: "w1", MaxCalls: 3, Busy: []string{"ok", "vanish", "idle"}, Idle: []string{"idle", "vanish"}, Cancels: 1}},
+			Clients:   []clientSpec{{Name: "c1", Stage: 1, Calls: []string{"exec A i1"}, Cancels: 1}},
+			Operators: []operatorSpec{{Name: "op", Stage: 1, Calls: []string{"sleep 2", "list", "term w1"}, Cancels: 1}},
 		},
 	}
 }
